@@ -139,6 +139,44 @@ def const_first(rng):
     return f'SELECT p.id AS id_p, p.{c1} AS v_p, q.id AS id_q, q.{c2} AS v_q FROM {frm} WHERE ' + ' AND '.join(conds)
 
 
+def join_chain(rng):
+    """Three tables of alternating integrations joined in a chain, each ON clause linking the new table to the one before it - so
+    the columns on the already-fetched side of two ON clauses have the SAME name on DIFFERENT tables (`q.a = p.id`, `s.x = q.id`)."""
+    r = rng
+    j1, j2 = r.choice(['JOIN', 'LEFT JOIN', 'INNER JOIN']), r.choice(['JOIN', 'LEFT JOIN', 'JOIN'])
+    on1 = r.choice(['q.a = p.id', 'p.id = q.a', 'q.id = p.id', 'q.a = p.a'])
+    on2 = r.choice(['s.x = q.id', 'q.id = s.x', 's.id = q.id', 's.x = q.a', 's.id = q.a'])
+    w = r.choice(['', '', ' WHERE p.id > 1', ' WHERE q.a IS NOT NULL', ' WHERE s.x < 5'])
+    return f'SELECT p.id AS id_p, q.id AS id_q, q.a AS a_q, s.id AS id_s, s.x AS x_s FROM int1.t1 AS p {j1} int2.t2 AS q ON {on1} {j2} int1.t3 AS s ON {on2}{w}'
+
+
+def cte_in_clause_subquery(rng):
+    """A CTE over one integration read only from a sub-query of the HAVING / ORDER BY / select list / WHERE of a select over a plain
+    table of another integration (the sub-query stays inside that table's fetch, or is planned on top - either way it must see the CTE)."""
+    r = rng
+    name = r.choice(['c', 'cte1', 'Recent'])
+    k = r.choice(['having', 'having', 'order', 'where', 'target'])
+    if r.random() < 0.6:
+        # the CTE reads the main table's own integration; another integration appears elsewhere (the statement is not sent as a whole)
+        body = r.choice(['SELECT s.id AS id, s.x AS a FROM int1.t3 AS s WHERE s.x IS NOT NULL', 'SELECT s.id AS id, s.x AS a FROM int1.t3 AS s'])
+        extra = ' WHERE p.id IN (SELECT u.id FROM int2.t2 AS u)'
+        if k == 'having':
+            return f'WITH {name} AS ({body}) SELECT p.a AS a, count(*) AS n FROM int1.t1 AS p{extra} GROUP BY p.a HAVING count(*) >= (SELECT count(*) FROM {name} AS z WHERE z.a = 2)'
+        if k == 'order':
+            return f'WITH {name} AS ({body}) SELECT p.id AS id, p.a AS a FROM int1.t1 AS p{extra} ORDER BY p.a * (SELECT count(*) FROM {name} AS z), p.id LIMIT 3'
+        if k == 'where':
+            return f'WITH {name} AS ({body}) SELECT p.id AS id, p.a AS a FROM int1.t1 AS p{extra} AND p.a > (SELECT min(z.a) FROM {name} AS z)'
+        return f'WITH {name} AS ({body}) SELECT p.id AS id, (SELECT max(z.a) FROM {name} AS z) AS m FROM int1.t1 AS p{extra}'
+    body = r.choice(['SELECT s.id AS id, s.a AS a FROM int2.t2 AS s WHERE s.a IS NOT NULL', 'SELECT s.id AS id, s.a AS a FROM int2.t2 AS s'])
+    if k == 'having':
+        return f'WITH {name} AS ({body}) SELECT p.a AS a, count(*) AS n FROM int1.t1 AS p GROUP BY p.a HAVING count(*) >= (SELECT count(*) FROM {name} AS z WHERE z.a = 2)'
+    if k == 'order':
+        return f'WITH {name} AS ({body}) SELECT p.id AS id, p.a AS a FROM int1.t1 AS p ORDER BY p.a * (SELECT count(*) FROM {name} AS z), p.id LIMIT 3'
+    if k == 'where':
+        return f'WITH {name} AS ({body}) SELECT p.id AS id, p.a AS a FROM int1.t1 AS p WHERE p.a > (SELECT min(z.a) FROM {name} AS z)'
+    return f'WITH {name} AS ({body}) SELECT p.id AS id, (SELECT max(z.a) FROM {name} AS z) AS m FROM int1.t1 AS p'
+
+
 def isnull_outer(rng):
     """Outer joins across integrations with IS [NOT] NULL tests on either side in WHERE (the anti-join idiom): a test on the
     NULL-extended side must see the joined row, not the table's own rows."""
